@@ -61,7 +61,7 @@ func c12A1(r *Run, reg *Registry) {
 			seen[key] = true
 			// attribute value under a switch on the attribute name
 			if u, ok := ta.X.(*ssa.UnOp); ok {
-				if _, fld, ok := fieldAddrOf(u.X); ok && fld.Name() == "AttributeValue" {
+				if _, fld, ok := fieldAddrOf(u.X); ok && fname(fld) == "AttributeValue" {
 					// the dominating case: AttributeName == const
 					for _, dc := range dominatingConds(ta.Block()) {
 						bo, ok := dc.cond.(*ssa.BinOp)
@@ -110,7 +110,7 @@ func c12A1(r *Run, reg *Registry) {
 						})
 					}
 					if okAll && n > 0 {
-						r.OK("C12.A1", key, ta.Pos(), "atomic.Value field %s only ever stores a %s (%d store site(s))", fld.Name(), qualName(ta.AssertedType), n)
+						r.OK("C12.A1", key, ta.Pos(), "atomic.Value field %s only ever stores a %s (%d store site(s))", fname(fld), qualName(ta.AssertedType), n)
 						return
 					}
 				}
@@ -206,7 +206,7 @@ func c12BatchOptCountCheck(p *Program) bool {
 		}
 		_, isParam := y.(*ssa.Parameter)
 		if u, isU := x.(*ssa.UnOp); isU && isParam {
-			if _, fld, isF := fieldAddrOf(u.X); isF && fld.Name() == "BatchItem" {
+			if _, fld, isF := fieldAddrOf(u.X); isF && fname(fld) == "BatchItem" {
 				ok = true
 			}
 		}
@@ -231,7 +231,7 @@ func c12A3(r *Run) {
 					for _, dc := range dominatingConds(x.Block()) {
 						if bo, ok := dc.cond.(*ssa.BinOp); ok && bo.Op == token.NEQ && dc.outcome {
 							if u, ok := bo.X.(*ssa.UnOp); ok {
-								if _, fld, ok := fieldAddrOf(u.X); ok && fld.Name() == "ResultStatus" {
+								if _, fld, ok := fieldAddrOf(u.X); ok && fname(fld) == "ResultStatus" {
 									if k, ok := constIntVal(bo.Y); ok && k == 0 {
 										okGuard = true
 									}
@@ -242,7 +242,7 @@ func c12A3(r *Run) {
 				}
 			case *ssa.FieldAddr:
 				if st := derefStruct(x.X.Type()); st != nil {
-					fields[st.Field(x.Field).Name()] = true
+					fields[fname(st.Field(x.Field))] = true
 				}
 			}
 		})
@@ -373,7 +373,7 @@ func c12A4(r *Run) {
 			return
 		}
 		if u, ok := other.(*ssa.UnOp); ok {
-			if _, fld, ok := fieldAddrOf(u.X); ok && fld.Name() == "Operation" {
+			if _, fld, ok := fieldAddrOf(u.X); ok && fname(fld) == "Operation" {
 				itemOp = true
 			}
 		}
@@ -416,7 +416,7 @@ func runC13(r *Run, verifDir string) {
 			return false
 		}
 		_, fld, ok := fieldAddrOf(u.X)
-		return ok && fld.Name() == "supportedVersions"
+		return ok && fname(fld) == "supportedVersions"
 	}
 	containsGuard := func(at *ssa.BasicBlock, elem func(ssa.Value) bool) bool {
 		for _, dc := range dominatingConds(at) {
@@ -438,7 +438,7 @@ func runC13(r *Run, verifDir string) {
 		if !ok {
 			return
 		}
-		if _, fld, ok := fieldAddrOf(st.Addr); ok && fld.Name() == "version" && typeName(st.Addr.(*ssa.FieldAddr).X.Type()) == "Client" {
+		if _, fld, ok := fieldAddrOf(st.Addr); ok && fname(fld) == "version" && typeName(st.Addr.(*ssa.FieldAddr).X.Type()) == "Client" {
 			stores = append(stores, st)
 		}
 	})
@@ -611,7 +611,7 @@ func runC13(r *Run, verifDir string) {
 		for _, dc := range dominatingConds(rt.Block()) {
 			if bo, ok := dc.cond.(*ssa.BinOp); ok && isNilConst(bo.Y) {
 				if u, ok := bo.X.(*ssa.UnOp); ok {
-					if _, fld, ok := fieldAddrOf(u.X); ok && fld.Name() == "version" && (bo.Op == token.NEQ) != dc.outcome {
+					if _, fld, ok := fieldAddrOf(u.X); ok && fname(fld) == "version" && (bo.Op == token.NEQ) != dc.outcome {
 						okSkip = true
 					}
 				}
@@ -630,7 +630,7 @@ func runC13(r *Run, verifDir string) {
 			if !ok || fn == nv {
 				return
 			}
-			if _, fld, ok := fieldAddrOf(st.Addr); ok && fld.Name() == "version" && typeName(st.Addr.(*ssa.FieldAddr).X.Type()) == "Client" {
+			if _, fld, ok := fieldAddrOf(st.Addr); ok && fname(fld) == "version" && typeName(st.Addr.(*ssa.FieldAddr).X.Type()) == "Client" {
 				nCtor++
 				key := fnKey(fn) + "/init-version"
 				src := ""
@@ -669,7 +669,7 @@ func runC13(r *Run, verifDir string) {
 			fromClient := false
 			if u, ok := arg.(*ssa.UnOp); ok { // *c.version
 				if u2, ok := u.X.(*ssa.UnOp); ok {
-					if _, fld, ok := fieldAddrOf(u2.X); ok && fld.Name() == "version" {
+					if _, fld, ok := fieldAddrOf(u2.X); ok && fname(fld) == "version" {
 						fromClient = true
 					}
 				}
@@ -788,7 +788,7 @@ func c13ClientListDescending(p *Program) string {
 			return false
 		}
 		_, fld, ok := fieldAddrOf(u.X)
-		return ok && fld.Name() == "supportedVersions"
+		return ok && fname(fld) == "supportedVersions"
 	}
 	sortsField, swapped, compacts := false, false, false
 	allInstrs(cl, func(in ssa.Instruction) {
